@@ -85,11 +85,14 @@ class Contract:
         self.doc = doc
         self.compare = None                  # optional custom comparison
         self.theorems = None                 # optional property-level theorems stated on the real result
+        self.pre = None                      # optional precondition: pre(c, *args, **kwargs) calling c.requires(...)
 
     def apply(self, interp, ctx, args, kwargs):
         """Modular use at a call site: the callee is represented by its spec only."""
         ctx.note(f"contract:{self.qualname}")
         c = SpecCtx(interp, ctx, self)
+        if self.pre is not None:
+            self.pre(c, *args, **kwargs)
         try:
             r = self.spec(c, *args, **kwargs)
         except PyExc as e:
@@ -112,8 +115,8 @@ class SpecCtx:
     """What a spec function sees: branching, raising, access to the interpreter for calling
     other contracts / reading public attributes of real objects."""
 
-    def __init__(self, interp, ctx, contract=None):
-        self.interp, self.ctx, self.contract = interp, ctx, contract
+    def __init__(self, interp, ctx, contract=None, mode="call"):
+        self.interp, self.ctx, self.contract, self.mode = interp, ctx, contract, mode
 
     def branch(self, cond, label="spec"):
         return self.ctx.branch(cond, "spec:" + label)
@@ -124,6 +127,13 @@ class SpecCtx:
 
     def attr(self, obj, name):
         return self.interp.get_attr(obj, name, self.ctx)
+
+    def requires(self, cond, what="precondition"):
+        """Precondition: assumed while verifying the function itself, an obligation at call sites."""
+        if self.mode == "verify":
+            self.ctx.assume(cond, why=f"requires:{what}")
+        else:
+            self.ctx.oblige(f"callee-pre[{self.contract.qualname if self.contract else ''}].{what}", cond, "pre")
 
     def forall_int(self, tag, lo, hi, fn, cap=48):
         """Universally quantified integer lo <= k < hi: a scoped skolem constant in symbolic mode,
@@ -384,11 +394,15 @@ def _eq_any(a, b):
 def compare_outcomes(interp, ctx, got: Outcome, want: Outcome):
     if want.kind == "raise":
         if got.kind == "raise":
+            if want.exc.kind == "ANY":
+                return          # the statement leaves this input unconstrained
             wk = want.exc.kind if isinstance(want.exc.kind, tuple) else (want.exc.kind,)
             ok = any(V.exc_isinstance(got.exc.kind, k) for k in wk)
             ctx.oblige(f"raises.{'|'.join(wk)}", ok, "raises",
                        {"got": got.exc.kind, "want": want.exc.kind, "msg": got.exc.msg})
         else:
+            if want.exc.kind == "ANY":
+                return
             wk = want.exc.kind if isinstance(want.exc.kind, tuple) else (want.exc.kind,)
             ctx.oblige(f"raises.{'|'.join(wk)}", False, "raises",
                        {"got": "normal return", "want": wk, "why": want.exc.msg})
@@ -437,6 +451,8 @@ def verify_function(interp, contract: Contract, inst: Instance, prop_prefix=""):
                 if isinstance(arr, SArr):
                     ctx.sanctioned |= set(arr.owner)
         from .loops import PathEnd
+        if contract.pre is not None:
+            contract.pre(SpecCtx(interp, ctx, contract, mode="verify"), *pristine_args, **pristine_kwargs)
         interp.no_contract.add(contract.qualname)
         if getattr(contract, "on_path_start", None):
             contract.on_path_start(interp, ctx)
@@ -449,7 +465,7 @@ def verify_function(interp, contract: Contract, inst: Instance, prop_prefix=""):
             return
         finally:
             interp.no_contract.discard(contract.qualname)
-        c = SpecCtx(interp, ctx, contract)
+        c = SpecCtx(interp, ctx, contract, mode="verify")
         want = run_outcome(lambda: contract.spec(c, *pristine_args, **pristine_kwargs))
         compare_outcomes(interp, ctx, got, want)
         if contract.theorems is not None and got.kind == "return" and want.kind == "return":
